@@ -319,6 +319,22 @@ def rule_scale(ctx):
            f'arrayed_param must wrap plain tuples only (found tests {tests}): Scale and Tuning are tuple subclasses and lose their methods', c.node, c.module)
 
 
+def rule_mono(ctx):
+    ctx.rule('C14.rest', 'both Pmono variants latch the node id (and parameters, clean-up) only for a creating event that is not a rest: '
+                         'a rest sends no /s_new, so nothing may be addressed to that id afterwards')
+    ci = ctx.repo.cls('sc3.seq.patterns.eventpatterns:Pmono')
+    for mname in ('_embed_mono', '_embed_mono_artic'):
+        f = ci.methods[mname]
+        latches = [x for x in walk_local(f.node) if isinstance(x, ast.Assign) and norm(x) == "node_id = event['node_id']"]
+        ok = bool(latches)
+        for x in latches:
+            ok = ok and any(isinstance(p_, ast.If) and 'not evt.is_rest(event)' in norm(p_.test) and U.in_body(x, p_, 'body')
+                            for p_ in U.parent_chain(x))
+        ctx.ob('C14.rest', f'{f.fq}:latch-only-when-created', ok,
+               f'{mname} keeps the node id of a creating event without testing that it is not a rest: later /n_set and the gate-off go to a '
+               f'node that was never created', f.node, f.module)
+
+
 def rule_par(ctx):
     ctx.rule('C14.par', 'Ppar keeps a local clock: after every event it yields, `now` advances to exactly the time whose distance from '
                         '`now` was emitted as that event\'s delta, and that time was read from the queue in the same block')
@@ -397,6 +413,7 @@ def rule_par(ctx):
 
 def run(ctx):
     rule_accum(ctx)
+    rule_mono(ctx)
     rule_scale(ctx)
     rule_par(ctx)
     rule_note(ctx)
@@ -407,6 +424,9 @@ def run(ctx):
 
 
 MUTANTS = [
+    dict(rule='C14.rest', name='(fix reverted) Pmono latches the node id of a rest', file='sc3/seq/patterns/eventpatterns.py',
+         old="                    if not evt.is_rest(event):  # No synth is created.\n                        server = event['server']\n                        node_id = event['node_id']\n                        mono_params = event['msg_params'][::2]  # For _update_msg_params\n                        cleanup.add_event(evt.event(\n                            {k: event[k] for k in kept_keys}, type='_mono_off'))\n",
+         new="                    server = event['server']\n                    node_id = event['node_id']\n                    mono_params = event['msg_params'][::2]  # For _update_msg_params\n                    cleanup.add_event(evt.event(\n                        {k: event[k] for k in kept_keys}, type='_mono_off'))\n"),
     dict(rule='C14.keys', name='(fix reverted) Scale re-wraps its Tuning', file='sc3/seq/scale.py',
          old="        elif not isinstance(tuning, Tuning):\n            tuning = Tuning(tuning)", new="        else:\n            tuning = Tuning(tuning)"),
     dict(rule='C14.keys', name='(fix reverted) every tuple value becomes an arrayed parameter', file='sc3/seq/event.py',
